@@ -48,6 +48,9 @@ def generate(rng, run, tier):
     cfg = nodes.default_cfg(integration=integration, physical=physical, logical=1 if physical == "TRIPLES" else 2,
                             frame_size=rng.choice([1, 2, 3, 250]), max_names=max(mn, 12), max_prefixes=mp and max(mp, 4),
                             max_datatypes=md, generalized=flags["generalized"], rdf_star=flags["rdf_star"])
+    # half of the streams have namespace declarations enabled (version 2): only there can a declaration be
+    # *encoded* and fail while encoding - with the option off Stream.namespace_declaration refuses up front
+    cfg["ns"] = rng.random() < 0.5
     return {"cfg": cfg, "ops": [["stmt", *T.to_json(st)] for st in stmts[:rng.choice([2, 3, 5, 8, 10])]],
             "bad_lex": rng.choice(["1", "x", ""]), "only": None}
 
@@ -86,7 +89,8 @@ def injections(cfg, stmts):
             if cfg["max_datatypes"] == 0:
                 out.append((pos, "nested", "typed_literal"))
         out.append((pos, "-", "short_tuple"))
-        out.append((pos, "-", "bad_namespace"))
+        if cfg.get("ns"):
+            out.append((pos, "-", "bad_namespace"))
     return out
 
 
